@@ -20,7 +20,7 @@ META = {
                   "global, an initialised pointer into a global array, globals and statics of a second translation unit, state of a "
                   "statically linked library (written by the library's own code too), thread-locals, and four global arrays used directly "
                   "as MPI send/receive buffers (below and above smpi/send-is-detached-thresh). Seeded schedules of 20-60 steps; a step = "
-                  "rank-chosen writes of rank/step-coded words, then one of 17 rank-switching calls (Barrier, blocking ping-pong, Gather, Scatter, Scan, Win_fence+Put into a global window, "
+                  "rank-chosen writes of rank/step-coded words, then one of 18 rank-switching calls (Barrier, blocking ping-pong, Gather, Scatter, Scan, Win_fence+Put into / Get out of a global window, "
                   "Isend/Irecv/Waitall ring, Sendrecv ring, smpi_execute, usleep, Bcast, Allreduce, Alltoall, Allgather, Reduce with a "
                   "user-defined operation that reads a global, Irecv+Test polling, Ssend), then EVERY byte of every variable is compared "
                   "with the shadow. Also: the initial values seen at program start (before MPI_Init, while earlier ranks have already "
